@@ -42,10 +42,10 @@ def fail_case(L, chain, lines):
 def compare_files(res, L, chain, ins, outs, out):
     """count, order and untouched columns for one conversion step; returns parsed outputs or None"""
     if out.kind != "ok":
-        res.fail(f"C02/{chain}:{out.sig()}", f"view --format failed on {len(ins)} valid records: {out.brief()}", fail_case(L, chain, [r.line() for r in ins[:200]]))
+        res.fail(f"C02/{chain}:{out.sig()}", f"view --format failed on {len(ins)} valid records: {out.brief()}", fail_case(L, chain, [r.line() for r in ins[:30000]]))
         return None
     if len(outs) != len(ins):
-        res.fail(f"C02/{chain}:record-count", f"{len(ins)} records in, {len(outs)} records out", fail_case(L, chain, [r.line() for r in ins[:200]]))
+        res.fail(f"C02/{chain}:record-count", f"{len(ins)} records in, {len(outs)} records out", fail_case(L, chain, [r.line() for r in ins[:30000]]))
         return None
     parsed = []
     for rin, line in zip(ins, outs):
@@ -58,7 +58,7 @@ def compare_files(res, L, chain, ins, outs, out):
             continue
         parsed.append(rout)
         if rout.qname != rin.qname:
-            res.fail(f"C02/{chain}:order", f"record {rin.qname} came out as {rout.qname} (order or identity lost)", fail_case(L, chain, [r.line() for r in ins[:200]]))
+            res.fail(f"C02/{chain}:order", f"record {rin.qname} came out as {rout.qname} (order or identity lost)", fail_case(L, chain, [r.line() for r in ins[:30000]]))
             return None
         for kind, text in conv.judge_untouched(rin, rout):
             res.fail(f"C02/{chain}:{kind}", f"[{L.name}] {rin.line()!r}: {text}", fail_case(L, chain, [rin.line()]))
